@@ -61,11 +61,11 @@ macro_rules
   | `(tactic| spec_match) =>
     `(tactic| simp (disch := decide) [specMatchList_nil_eq, specMatchList_ell,
         specMatchList_cons_cons, specMatchList_cons_nil, specMatch_var, specMatch_lit, specRun_var,
-        isSym, *])
+        *])
   | `(tactic| spec_match [$ts,*]) =>
     `(tactic| simp (disch := decide) [specMatchList_nil_eq, specMatchList_ell,
         specMatchList_cons_cons, specMatchList_cons_nil, specMatch_var, specMatch_lit, specRun_var,
-        isSym, $ts,*, *])
+        $ts,*, *])
 
 /-- compute the declarative instantiation -/
 macro "spec_inst" : tactic =>
@@ -292,6 +292,171 @@ theorem letstar_more_shape {fuel use bs b n v bds nvs bodies} (hu : IsList use (
     spec_match [specMatch_ofList_isList hbs, specMatch_ofList_isList hb,  specMatchList_cons_cons, specMatchList_ell, specRun_pair2 _ _ _ hp]
   simp only [letstarRules]
   rw [specTransform_cons_none h1, specTransform_cons_none h2, specTransform_cons_some hm]
+  spec_inst
+
+/-! ## cond
+
+The literals are `else` and `=>`. `isSym s d` says that the datum `d` is the symbol `s`. The side
+conditions are exactly what the textual order of the seven rules forces. -/
+
+/-- `(cond (else result₁ …))` ⟹ `(begin result₁ …)` -/
+theorem cond_else_shape {fuel use c e results} (hu : IsList use [c]) (hc : IsList c (e :: results))
+    (he : isSym "else" e = true) (hne : results ≠ []) (hf : matchFuel use ≤ fuel) :
+    expand1 fuel "cond" use = .ok (L use.loc (S use.loc "begin" :: results)) := by
+  rw [expand1_eq_spec cond_rules (by rfl) (by rfl) hf]
+  have hm : specMatch ["else", "=>"] (pl [pl [pv "else", pv "result", pe]]) use =
+      some [("result", results)] := by
+    rw [specMatch_ofList_isList hu (by rfl)]; spec_match [specMatch_ofList_isList hc]
+  simp only [condRules]
+  rw [specTransform_cons_some hm]
+  spec_inst
+
+/-- `(cond (test => receiver))` ⟹ `(let ((temp test)) (if temp (receiver temp)))`, provided the
+test is not the symbol `else` (else the first rule takes the clause: `=> receiver` would be its
+results) -/
+theorem cond_arrow_shape {fuel use c test a r} (hu : IsList use [c]) (hc : IsList c [test, a, r])
+    (ha : isSym "=>" a = true) (hte : isSym "else" test = false) (hf : matchFuel use ≤ fuel) :
+    expand1 fuel "cond" use =
+      .ok (L use.loc [S use.loc "let", L use.loc [L use.loc [S use.loc "temp", test]],
+        L use.loc [S use.loc "if", S use.loc "temp", L use.loc [r, S use.loc "temp"]]]) := by
+  rw [expand1_eq_spec cond_rules (by rfl) (by rfl) hf]
+  have h1 : specMatch ["else", "=>"] (pl [pl [pv "else", pv "result", pe]]) use = none := by
+    rw [specMatch_ofList_isList hu (by rfl)]; spec_match [specMatch_ofList_isList hc]
+  have hm : specMatch ["else", "=>"] (pl [pl [pv "test", pv "=>", pv "result"]]) use =
+      some [("test", [test]), ("result", [r])] := by
+    rw [specMatch_ofList_isList hu (by rfl)]; spec_match [specMatch_ofList_isList hc]
+  simp only [condRules]
+  rw [specTransform_cons_none h1, specTransform_cons_some hm]
+  spec_inst
+
+/-- `(cond (test => receiver) clause₁ …)` ⟹
+`(let ((temp test)) (if temp (receiver temp) (cond clause₁ …)))`, for one or more further clauses
+(no condition on `test`: the `else` rule only takes a sole clause) -/
+theorem cond_arrow_more_shape {fuel use c test a r clauses} (hu : IsList use (c :: clauses))
+    (hc : IsList c [test, a, r]) (ha : isSym "=>" a = true) (hcl : clauses ≠ [])
+    (hf : matchFuel use ≤ fuel) :
+    expand1 fuel "cond" use =
+      .ok (L use.loc [S use.loc "let", L use.loc [L use.loc [S use.loc "temp", test]],
+        L use.loc [S use.loc "if", S use.loc "temp", L use.loc [r, S use.loc "temp"],
+          L use.loc (S use.loc "cond" :: clauses)]]) := by
+  rw [expand1_eq_spec cond_rules (by rfl) (by rfl) hf]
+  have h1 : specMatch ["else", "=>"] (pl [pl [pv "else", pv "result", pe]]) use = none := by
+    rw [specMatch_ofList_isList hu (by rfl)]; spec_match [specMatch_ofList_isList hc]
+  have h2 : specMatch ["else", "=>"] (pl [pl [pv "test", pv "=>", pv "result"]]) use = none := by
+    rw [specMatch_ofList_isList hu (by rfl)]; spec_match [specMatch_ofList_isList hc]
+  have hm : specMatch ["else", "=>"] (pl [pl [pv "test", pv "=>", pv "result"], pv "clause", pe]) use =
+      some [("test", [test]), ("result", [r]), ("clause", clauses)] := by
+    rw [specMatch_ofList_isList hu (by rfl)]; spec_match [specMatch_ofList_isList hc]
+  simp only [condRules]
+  rw [specTransform_cons_none h1, specTransform_cons_none h2, specTransform_cons_some hm]
+  spec_inst
+
+/-- `(cond (test))` ⟹ `test` (whatever `test` is, even the symbol `else`: `(else result ...)`
+needs at least one result) -/
+theorem cond_test_shape {fuel use c test} (hu : IsList use [c]) (hc : IsList c [test])
+    (hf : matchFuel use ≤ fuel) :
+    expand1 fuel "cond" use = .ok test := by
+  rw [expand1_eq_spec cond_rules (by rfl) (by rfl) hf]
+  have h1 : specMatch ["else", "=>"] (pl [pl [pv "else", pv "result", pe]]) use = none := by
+    rw [specMatch_ofList_isList hu (by rfl)]; spec_match [specMatch_ofList_isList hc]
+  have h2 : specMatch ["else", "=>"] (pl [pl [pv "test", pv "=>", pv "result"]]) use = none := by
+    rw [specMatch_ofList_isList hu (by rfl)]; spec_match [specMatch_ofList_isList hc]
+  have h3 : specMatch ["else", "=>"] (pl [pl [pv "test", pv "=>", pv "result"], pv "clause", pe]) use = none := by
+    rw [specMatch_ofList_isList hu (by rfl)]; spec_match [specMatch_ofList_isList hc]
+  have hm : specMatch ["else", "=>"] (pl [pl [pv "test"]]) use =
+      some [("test", [test])] := by
+    rw [specMatch_ofList_isList hu (by rfl)]; spec_match [specMatch_ofList_isList hc]
+  simp only [condRules]
+  rw [specTransform_cons_none h1, specTransform_cons_none h2, specTransform_cons_none h3, specTransform_cons_some hm]
+  spec_inst
+
+/-- `(cond (test) clause₁ …)` ⟹ `(let ((temp test)) (if temp temp (cond clause₁ …)))` -/
+theorem cond_test_more_shape {fuel use c test clauses} (hu : IsList use (c :: clauses))
+    (hc : IsList c [test]) (hcl : clauses ≠ []) (hf : matchFuel use ≤ fuel) :
+    expand1 fuel "cond" use =
+      .ok (L use.loc [S use.loc "let", L use.loc [L use.loc [S use.loc "temp", test]],
+        L use.loc [S use.loc "if", S use.loc "temp", S use.loc "temp",
+          L use.loc (S use.loc "cond" :: clauses)]]) := by
+  rw [expand1_eq_spec cond_rules (by rfl) (by rfl) hf]
+  have h1 : specMatch ["else", "=>"] (pl [pl [pv "else", pv "result", pe]]) use = none := by
+    rw [specMatch_ofList_isList hu (by rfl)]; spec_match [specMatch_ofList_isList hc]
+  have h2 : specMatch ["else", "=>"] (pl [pl [pv "test", pv "=>", pv "result"]]) use = none := by
+    rw [specMatch_ofList_isList hu (by rfl)]; spec_match [specMatch_ofList_isList hc]
+  have h3 : specMatch ["else", "=>"] (pl [pl [pv "test", pv "=>", pv "result"], pv "clause", pe]) use = none := by
+    rw [specMatch_ofList_isList hu (by rfl)]; spec_match [specMatch_ofList_isList hc]
+  have h4 : specMatch ["else", "=>"] (pl [pl [pv "test"]]) use = none := by
+    rw [specMatch_ofList_isList hu (by rfl)]; spec_match [specMatch_ofList_isList hc]
+  have hm : specMatch ["else", "=>"] (pl [pl [pv "test"], pv "clause", pe]) use =
+      some [("test", [test]), ("clause", clauses)] := by
+    rw [specMatch_ofList_isList hu (by rfl)]; spec_match [specMatch_ofList_isList hc]
+  simp only [condRules]
+  rw [specTransform_cons_none h1, specTransform_cons_none h2, specTransform_cons_none h3, specTransform_cons_none h4, specTransform_cons_some hm]
+  spec_inst
+
+/-- `(cond (test result₁ …))` ⟹ `(if test (begin result₁ …))`, for one or more results, provided
+the test is not the symbol `else` and the results are not `=> receiver` -/
+theorem cond_normal_shape {fuel use c test results} (hu : IsList use [c])
+    (hc : IsList c (test :: results)) (hne : results ≠ []) (hte : isSym "else" test = false)
+    (hna : ∀ a r, results = [a, r] → isSym "=>" a = false) (hf : matchFuel use ≤ fuel) :
+    expand1 fuel "cond" use =
+      .ok (L use.loc [S use.loc "if", test, L use.loc (S use.loc "begin" :: results)]) := by
+  rw [expand1_eq_spec cond_rules (by rfl) (by rfl) hf]
+  have h1 : specMatch ["else", "=>"] (pl [pl [pv "else", pv "result", pe]]) use = none := by
+    rw [specMatch_ofList_isList hu (by rfl)]; spec_match [specMatch_ofList_isList hc]
+  have h2 : specMatch ["else", "=>"] (pl [pl [pv "test", pv "=>", pv "result"]]) use = none := by
+    rw [specMatch_ofList_isList hu (by rfl)]
+    rcases results with _ | ⟨a, _ | ⟨r, _ | ⟨x, xs⟩⟩⟩
+    · exact absurd rfl hne
+    · spec_match [specMatch_ofList_isList hc]
+    · have := hna a r rfl
+      spec_match [specMatch_ofList_isList hc]
+    · spec_match [specMatch_ofList_isList hc]
+  have h3 : specMatch ["else", "=>"] (pl [pl [pv "test", pv "=>", pv "result"], pv "clause", pe]) use = none := by
+    rw [specMatch_ofList_isList hu (by rfl)]; spec_match [specMatch_ofList_isList hc]
+  have h4 : specMatch ["else", "=>"] (pl [pl [pv "test"]]) use = none := by
+    rw [specMatch_ofList_isList hu (by rfl)]; spec_match [specMatch_ofList_isList hc]
+  have h5 : specMatch ["else", "=>"] (pl [pl [pv "test"], pv "clause", pe]) use = none := by
+    rw [specMatch_ofList_isList hu (by rfl)]; spec_match [specMatch_ofList_isList hc]
+  have hm : specMatch ["else", "=>"] (pl [pl [pv "test", pv "result", pe]]) use =
+      some [("test", [test]), ("result", results)] := by
+    rw [specMatch_ofList_isList hu (by rfl)]; spec_match [specMatch_ofList_isList hc]
+  simp only [condRules]
+  rw [specTransform_cons_none h1, specTransform_cons_none h2, specTransform_cons_none h3, specTransform_cons_none h4, specTransform_cons_none h5, specTransform_cons_some hm]
+  spec_inst
+
+/-- `(cond (test result₁ …) clause₁ …)` ⟹ `(if test (begin result₁ …) (cond clause₁ …))`, for one
+or more results and one or more further clauses, provided the results are not `=> receiver` (no
+condition on `test`) -/
+theorem cond_normal_more_shape {fuel use c test results clauses} (hu : IsList use (c :: clauses))
+    (hc : IsList c (test :: results)) (hne : results ≠ []) (hcl : clauses ≠ [])
+    (hna : ∀ a r, results = [a, r] → isSym "=>" a = false) (hf : matchFuel use ≤ fuel) :
+    expand1 fuel "cond" use =
+      .ok (L use.loc [S use.loc "if", test, L use.loc (S use.loc "begin" :: results),
+        L use.loc (S use.loc "cond" :: clauses)]) := by
+  rw [expand1_eq_spec cond_rules (by rfl) (by rfl) hf]
+  have h1 : specMatch ["else", "=>"] (pl [pl [pv "else", pv "result", pe]]) use = none := by
+    rw [specMatch_ofList_isList hu (by rfl)]; spec_match [specMatch_ofList_isList hc]
+  have h2 : specMatch ["else", "=>"] (pl [pl [pv "test", pv "=>", pv "result"]]) use = none := by
+    rw [specMatch_ofList_isList hu (by rfl)]; spec_match [specMatch_ofList_isList hc]
+  have h3 : specMatch ["else", "=>"] (pl [pl [pv "test", pv "=>", pv "result"], pv "clause", pe]) use = none := by
+    rw [specMatch_ofList_isList hu (by rfl)]
+    rcases results with _ | ⟨a, _ | ⟨r, _ | ⟨x, xs⟩⟩⟩
+    · exact absurd rfl hne
+    · spec_match [specMatch_ofList_isList hc]
+    · have := hna a r rfl
+      spec_match [specMatch_ofList_isList hc]
+    · spec_match [specMatch_ofList_isList hc]
+  have h4 : specMatch ["else", "=>"] (pl [pl [pv "test"]]) use = none := by
+    rw [specMatch_ofList_isList hu (by rfl)]; spec_match [specMatch_ofList_isList hc]
+  have h5 : specMatch ["else", "=>"] (pl [pl [pv "test"], pv "clause", pe]) use = none := by
+    rw [specMatch_ofList_isList hu (by rfl)]; spec_match [specMatch_ofList_isList hc]
+  have h6 : specMatch ["else", "=>"] (pl [pl [pv "test", pv "result", pe]]) use = none := by
+    rw [specMatch_ofList_isList hu (by rfl)]; spec_match [specMatch_ofList_isList hc]
+  have hm : specMatch ["else", "=>"] (pl [pl [pv "test", pv "result", pe], pv "clause", pe]) use =
+      some [("test", [test]), ("result", results), ("clause", clauses)] := by
+    rw [specMatch_ofList_isList hu (by rfl)]; spec_match [specMatch_ofList_isList hc]
+  simp only [condRules]
+  rw [specTransform_cons_none h1, specTransform_cons_none h2, specTransform_cons_none h3, specTransform_cons_none h4, specTransform_cons_none h5, specTransform_cons_none h6, specTransform_cons_some hm]
   spec_inst
 
 end Ruschm.C05
